@@ -574,6 +574,14 @@ func init() { vRegister("c09_access_corpus", c09AccessCorpus) }
 func c09AccessCorpus(c *vrep.Ctx) {
 	cl := vEmbeddedCached(0.8)
 	pool := vDocPool(c.Pick(48, 431))
+	if !c.Thorough() {
+		// and two neighbours of more than 3 000 tokens (paths taken only by large targets)
+		for _, d := range vCorpusFiles() {
+			if d.Key == "License/APSL-1.1/license.txt" || d.Key == "License/APSL-1.2/license.txt" {
+				pool = append(pool, d)
+			}
+		}
+	}
 	var inputs [][]byte
 	for i, d := range pool {
 		t := vParse(d.Bytes)
